@@ -24,7 +24,7 @@ Strongly prefer changes that need something specific to manifest - a particular 
   - mutN.diff : `git diff` of the change against HEAD (must apply cleanly with `git apply` on a clean checkout of HEAD; only files under src/),
   - mutN_demo.rs : a standalone Rust integration-test file (it will be copied to tests/mutN_demo.rs; use only the public API of the `bio` crate and std, no extra crates) with one or more #[test] functions that FAIL with the change applied and PASS on the unchanged HEAD,
   - mutN.md : what the change is, which clause of the property it breaks, what is needed for it to manifest (the specific input/history/configuration), and the exact commands you ran with their outcomes: existing suite passes with the change; demo fails with the change; demo passes without the change.
-You must actually run these three verifications for each change; do not just claim them. Work on one change at a time: apply it, run the suite and the demo, save the diff, then `git checkout -- src` before the next one. When you are finished the worktree must be back at HEAD (no modifications under src/, no demo files left in tests/); only out/ holds your results. Finally reply with a short summary of the changes (file, idea, how it manifests).'''
+You must actually run these three verifications for each change; do not just claim them. Work on one change at a time: apply it, run the suite and the demo, save the diff, then `git checkout -- src` before the next one (never use `git stash`: the stash is shared with other worktrees of this repository; and never kill processes you did not start). When you are finished the worktree must be back at HEAD (no modifications under src/, no demo files left in tests/); only out/ holds your results. Finally reply with a short summary of the changes (file, idea, how it manifests).'''
 TAKEN = ("The following ideas have ALREADY been used by others; do NOT reuse them or close variants of them - find different code sites, clauses, "
          "entry points and mechanisms (look also at less obvious places: constructors and builder methods, trait implementations such as Default / Clone / "
          "FromIterator / Extend / PartialEq, helper types and iterator adaptors, size/capacity arithmetic, behaviour at type limits and with very large inputs, "
